@@ -109,6 +109,13 @@ def handle : List String → String
       | .error e => showWErr e
       | .ok w => s!"ok {showHex w} size={showOptNat (sizeOf b as)}"
     | _, _ => "bad-op"
+  | ["io", buf, k, bytesIO, ops] =>
+    match parseHex buf, k.toNat? with
+    | some buf, some k =>
+      let ops := ops.toList.filterMap (fun c => if c == 'S' then some IOOp.size else if c == 'W' then some IOOp.write else none)
+      let outs := (IOPayload.create buf k (parseBool bytesIO)).run ops
+      ",".intercalate (outs.map (fun o => match o with | .size n => s!"s{n}" | .data b => "w" ++ showHex b))
+    | _, _ => "bad-op"
   | ["al", chunk, size, atEnd] =>
     match parseHex chunk, size.toNat? with
     | some c, some n => let r := alignB64 c n (parseBool atEnd); s!"{showHex r.1} {showHex r.2}"
